@@ -292,7 +292,7 @@ func modeC02() {
 	st := newStats()
 	budget := 170 * time.Second
 	if thorough {
-		budget = 28 * time.Minute
+		budget = 20 * time.Minute
 	}
 	deadline := time.Now().Add(budget)
 	workloads := []Case{
